@@ -625,3 +625,14 @@ impl Read for FrameDecoder {
         }
     }
 }
+
+#[cfg(feature = "verif_hooks")]
+impl FrameDecoder {
+    /// Number of decoded bytes currently held in the decode buffer, for the verification harness.
+    pub fn verif_buffer_len(&self) -> usize {
+        match &self.state {
+            None => 0,
+            Some(s) => s.decoder_scratch.buffer.len(),
+        }
+    }
+}
